@@ -38,7 +38,7 @@ fn mk(name: &str, cfg: Cfg, alpha: Alpha, pfx: &str, depth: usize, min_depth: us
     prop.prefix = prefix(pfx);
     prop.probe = probe;
     prop.judge_only_after_reopen = true;
-    Pass { name: name.to_string(), prop, depth, min_depth, budget: Duration::from_secs_f64(secs) }
+    Pass { name: name.to_string(), prop, depth, min_depth, budget: Duration::from_secs_f64(secs), dedup_extra: 0, dedup_budget: Duration::ZERO }
 }
 
 pub fn passes(tier: &str) -> Vec<Pass> {
